@@ -1,0 +1,182 @@
+//go:build verif
+
+package tbtc
+
+import (
+	"context"
+	"math/big"
+
+	"github.com/keep-network/keep-core/pkg/chain"
+	"github.com/keep-network/keep-core/pkg/protocol/group"
+	"github.com/keep-network/keep-core/pkg/tecdsa/dkg"
+	"github.com/keep-network/keep-core/pkg/tecdsa/signing"
+)
+
+// Thin exported wrappers used by the /verif harness (property C11). They build
+// the retry loops with the production constructors and run their real start
+// methods with collaborators supplied by the harness. The adapters only convert
+// between exported and unexported types. No behaviour of their own.
+
+// VerifC11AttemptParams mirrors signingAttemptParams / dkgAttemptParams.
+type VerifC11AttemptParams struct {
+	Number                 uint
+	StartBlock             uint64
+	TimeoutBlock           uint64
+	ExcludedMembersIndexes []group.MemberIndex
+}
+
+// VerifC11Announcer mirrors signingAnnouncer / dkgAnnouncer.
+type VerifC11Announcer interface {
+	Announce(
+		ctx context.Context,
+		memberIndex group.MemberIndex,
+		sessionID string,
+	) ([]group.MemberIndex, error)
+}
+
+// VerifC11DoneCheck mirrors signingDoneCheckStrategy with exported methods.
+type VerifC11DoneCheck interface {
+	Listen(
+		ctx context.Context,
+		message *big.Int,
+		attemptNumber uint64,
+		attemptTimeoutBlock uint64,
+		attemptMembersIndexes []group.MemberIndex,
+	)
+	SignalDone(
+		ctx context.Context,
+		memberIndex group.MemberIndex,
+		message *big.Int,
+		attemptNumber uint64,
+		result *signing.Result,
+		endBlock uint64,
+	) error
+	WaitUntilAllDone(ctx context.Context) (*signing.Result, uint64, error)
+}
+
+type verifC11DoneCheckAdapter struct {
+	d VerifC11DoneCheck
+}
+
+func (a *verifC11DoneCheckAdapter) listen(
+	ctx context.Context,
+	message *big.Int,
+	attemptNumber uint64,
+	attemptTimeoutBlock uint64,
+	attemptMembersIndexes []group.MemberIndex,
+) {
+	a.d.Listen(ctx, message, attemptNumber, attemptTimeoutBlock, attemptMembersIndexes)
+}
+
+func (a *verifC11DoneCheckAdapter) signalDone(
+	ctx context.Context,
+	memberIndex group.MemberIndex,
+	message *big.Int,
+	attemptNumber uint64,
+	result *signing.Result,
+	endBlock uint64,
+) error {
+	return a.d.SignalDone(ctx, memberIndex, message, attemptNumber, result, endBlock)
+}
+
+func (a *verifC11DoneCheckAdapter) waitUntilAllDone(
+	ctx context.Context,
+) (*signing.Result, uint64, error) {
+	return a.d.WaitUntilAllDone(ctx)
+}
+
+// VerifC11SigningLoopResult mirrors signingRetryLoopResult.
+type VerifC11SigningLoopResult struct {
+	Result              *signing.Result
+	ActiveMembers       []group.MemberIndex
+	InactiveMembers     []group.MemberIndex
+	LatestEndBlock      uint64
+	AttemptTimeoutBlock uint64
+}
+
+// VerifC11SigningLoop runs signingRetryLoop.start.
+func VerifC11SigningLoop(
+	ctx context.Context,
+	message *big.Int,
+	initialStartBlock uint64,
+	memberIndex group.MemberIndex,
+	operators chain.Addresses,
+	groupParameters *GroupParameters,
+	announcer VerifC11Announcer,
+	doneCheck VerifC11DoneCheck,
+	waitForBlock func(context.Context, uint64) error,
+	getCurrentBlock func() (uint64, error),
+	attempt func(*VerifC11AttemptParams) (*signing.Result, uint64, error),
+) (*VerifC11SigningLoopResult, int64, error) {
+	srl := newSigningRetryLoop(
+		logger,
+		message,
+		initialStartBlock,
+		memberIndex,
+		operators,
+		groupParameters,
+		announcer,
+		&verifC11DoneCheckAdapter{doneCheck},
+	)
+	result, err := srl.start(
+		ctx,
+		waitForBlock,
+		getCurrentBlock,
+		func(params *signingAttemptParams) (*signing.Result, uint64, error) {
+			return attempt(&VerifC11AttemptParams{
+				Number:                 params.number,
+				StartBlock:             params.startBlock,
+				TimeoutBlock:           params.timeoutBlock,
+				ExcludedMembersIndexes: params.excludedMembersIndexes,
+			})
+		},
+	)
+	if err != nil {
+		return nil, srl.attemptSeed, err
+	}
+	return &VerifC11SigningLoopResult{
+		Result:              result.result,
+		ActiveMembers:       result.activityReport.activeMembers,
+		InactiveMembers:     result.activityReport.inactiveMembers,
+		LatestEndBlock:      result.latestEndBlock,
+		AttemptTimeoutBlock: result.attemptTimeoutBlock,
+	}, srl.attemptSeed, nil
+}
+
+// VerifC11DkgLoop runs dkgRetryLoop.start.
+func VerifC11DkgLoop(
+	ctx context.Context,
+	seed *big.Int,
+	initialStartBlock uint64,
+	memberIndex group.MemberIndex,
+	operators chain.Addresses,
+	groupParameters *GroupParameters,
+	announcer VerifC11Announcer,
+	attemptsLimit uint,
+	waitForBlock func(context.Context, uint64) error,
+	attempt func(*VerifC11AttemptParams) (*dkg.Result, error),
+) (*dkg.Result, int64, error) {
+	drl := newDkgRetryLoop(
+		logger,
+		seed,
+		initialStartBlock,
+		memberIndex,
+		operators,
+		groupParameters,
+		announcer,
+		attemptsLimit,
+	)
+	result, err := drl.start(
+		ctx,
+		waitForBlock,
+		func(params *dkgAttemptParams) (*dkg.Result, error) {
+			return attempt(&VerifC11AttemptParams{
+				Number:                 params.number,
+				StartBlock:             params.startBlock,
+				TimeoutBlock:           params.timeoutBlock,
+				ExcludedMembersIndexes: params.excludedMembersIndexes,
+			})
+		},
+	)
+	return result, drl.attemptSeed, err
+}
